@@ -66,3 +66,182 @@ SPECS["C13"] = Spec(
          "symbolic code/method/length; one-step: one operation from an arbitrary invariant-satisfying pre-state. A path is "
          "non-trivial when it contains at least one operation reaching the underlying writer.",
 )
+
+
+# --------------------------------------------------------------------------- routing (C01, C02, C07)
+ROUTE_FILES = ["route/parse.go", "route/oracle.go", "route/c01.go"]
+
+# segment menu: (text template with %d for the position, kind)
+SEG_MENU = [
+    ("a", "s"), ("b", "s"), ("{x%d}", "p"), ("{y%d}", "p"), ("{r%d: /a+/}", "r"), ("{d%d: /[0-9]+/}", "r"),
+    ("v{w%d}", "r"), ("{p%d: /a|ab/}{q%d: /b*/}", "r"), ("{m%d: **}", "m"), ("{m%d: **, capture: 2}", "m"), ("{**}", "m"),
+]
+
+
+def seg_text(item, pos):
+    t, k = item
+    return (t.replace("%d", str(pos)), k)
+
+
+class SimTree:
+    """Registration-validity model used only to pre-filter random route sets (C08 decides registration itself)."""
+
+    def __init__(self):
+        self.sub = {}    # prefix -> list of (text, kind)
+        self.leaf = {}   # prefix -> list of (text, kind)
+
+    def add(self, segs, optional):
+        prefix = ""
+        seen_all = False
+        plan = []
+        for j, (t, k) in enumerate(segs[:-1]):
+            if t == "":
+                return False
+            subs = self.sub.get(prefix, [])
+            if (t, k) not in subs:
+                if k == "m" and any(kk == "m" for _, kk in subs):
+                    return False
+                if k == "m" and seen_all:
+                    return False
+                plan.append(("sub", prefix, (t, k)))
+            if k == "m":
+                if seen_all:
+                    return False
+                seen_all = True
+            prefix += "/" + t
+        t, k = segs[-1]
+        lt = ("?" if optional else "") + t
+        leaves = self.leaf.get(prefix, []) + [x[2] for x in plan if x[0] == "leaf" and x[1] == prefix]
+        if any(lt == x for x, _ in leaves):
+            return False
+        if k == "m" and any(kk == "m" for _, kk in leaves):
+            return False
+        plan.append(("leaf", prefix, (lt, k)))
+        if optional:
+            if len(segs) < 2:
+                return False  # "/?x": see D1
+            pt, pk = segs[-2]
+            pprefix = prefix[: len(prefix) - len(pt) - 1]
+            leaves = self.leaf.get(pprefix, [])
+            if any(pt == x for x, _ in leaves):
+                return False
+            if pk == "m" and any(kk == "m" for _, kk in leaves):
+                return False
+            plan.append(("leaf", pprefix, (pt, pk)))
+        for what, pre, item in plan:
+            (self.sub if what == "sub" else self.leaf).setdefault(pre, []).append(item)
+        return True
+
+
+def random_route_set(rng, menu, max_routes=4, max_segs=3):
+    tree = SimTree()
+    texts = []
+    for _ in range(rng.randint(1, max_routes)):
+        n = rng.randint(1, max_segs)
+        segs = [seg_text(rng.choice(menu), j) for j in range(n)]
+        optional = n >= 2 and rng.random() < 0.25
+        if not tree.add(segs, optional):
+            continue
+        texts.append("".join("/" + ("?" if optional and j == n - 1 else "") + t for j, (t, _) in enumerate(segs)))
+    return texts
+
+
+CURATED_C01 = [
+    ["/{m: **}", "/{x}", "/{r: /a+/}", "/a"],
+    ["/{m: **}/c", "/{x}/c", "/{r: /a+/}/c", "/a/c"],
+    ["/b", "/{y0}/{y1}", "/{x0}/{x1}"],
+    ["/{x}/a", "/{y}/b", "/{z}/{w}"],
+    ["/a/b", "/{x}/c", "/{m: **}"],
+    ["/{m: **}/a"],
+    ["/{m: **}/a/{y}", "/{x}/a"],
+    ["/{m: **}", "/{x}/b"],
+    ["/{m: **, capture: 2}", "/{x}/{y}/{z}"],
+    ["/{m: **, capture: 2}/e", "/{x}"],
+    ["/{m: **, capture: 1}/e/{n: **}"],
+    ["/o/?{y}", "/{x}"],
+    ["/a/?b", "/{x}", "/a/{m: **}"],
+    ["/{p: /a|ab/}{q: /b*/}", "/{x}"],
+    ["/v{x}", "/{y}", "/v{z}/b"],
+    ["/{**}"],
+    ["/s/{**}", "/s/{x}", "/s/{d: /[0-9]+/}"],
+    ["/a/", "/a", "/{x}/"],
+    ["/", "/{x}"],
+    ["/{x}/{m: **}", "/a/{y}", "/a/b/c"],
+    ["/{d: /[0-9]+/}/{r: /a+/}", "/{d2: /[0-9]+/}/a", "/1/{z}"],
+    ["/{r: /a+/}", "/{s: /a*b?/}", "/{t: /[ab]{2}/}"],
+]
+
+CURATED_C02 = [
+    ["/{a: /x|y/}"],
+    ["/{a: /x+/}.{b}"],
+    ["/{a: /[0-9]+/}-{b: /[a-z]+/}"],
+    ["/v{x}", "/{y}"],
+    ["/{x}/{m: **}/e", "/{x2}/{n: **}"],
+    ["/{m: **, capture: 2}/{y}"],
+    ["/a/?{o}", "/{x}/{y}"],
+    ["/{p: /a|ab/}{q: /b*/}"],
+    ["/{a: /.+/}/{b: /[^a]/}"],
+]
+
+# route sets exhibiting defects recorded in DESIGN.md §5 (fixed or listed as known findings)
+DEFECT_SETS_C02 = [
+    ["/l/{a: /(x(y))/}-{b: /z+/}"],                 # D2
+    ["/t/{a: /(x(y))/}-{b: /z+/}/e"],               # D3
+    ["/v1+{a}"], ["/a(b){a}"], ["/a${a}"], ["/a.b{x}"],  # D4
+]
+
+
+def routing_jobs(pid, tier, seed):
+    rng = random.Random(seed * 7919 + (1 if pid == "C01" else 2))
+    jobs = []
+    n_q = 5
+    n_t = 7
+
+    def add(routes, n, tag, prefix=""):
+        jobs.append({"pkg_short": "route", "setup": "VH_Route_setup", "body": "VH_Route_match",
+                     "params": {"routes": "\n".join(routes), "n": n, "prefix": prefix, "family": tag},
+                     "max_paths": 300000})
+
+    n = n_q if tier == "quick" else n_t
+    curated = CURATED_C01 if pid != "C02" else CURATED_C02 + DEFECT_SETS_C02
+    if pid == "C07":
+        curated = CURATED_C01[:8] + CURATED_C02[:4]
+    for rs in curated:
+        add(rs, n, "curated")
+    menu = SEG_MENU
+    ndraw = {"quick": 24, "thorough": 160}[tier]
+    drawn = 0
+    guard = 0
+    while drawn < ndraw and guard < 10000:
+        guard += 1
+        rs = random_route_set(rng, menu)
+        if not rs:
+            continue
+        add(rs, n if tier == "quick" else n - 1, "seeded")
+        drawn += 1
+    return jobs
+
+
+def routing_bounds(tier):
+    return {"request_path": "every byte string of length 0..%d (all 256 byte values per byte)" % (5 if tier == "quick" else 7),
+            "route_sets": "curated sets (one per priority clause) + seeded draws of 1-4 routes x 1-3 segments over an 11-item segment menu",
+            "unwinding": "3e6 SSA instructions per path, call depth 400; exceeding either is reported inconclusive",
+            "outside": "longer paths, route sets outside the family, user regexes outside the menu"}
+
+
+ROUTING_ASSUME = [
+    "the tree is built by running the real AddRoute/newTree/newLeaf/regexp.Compile in the interpreter on the AST of the harness route parser; that parser is compared with the real participle parser natively for every route string of the run",
+    "stdlib regexp, regexp/syntax, strings, net/url are executed from their own SSA; utf8.DecodeRuneInString, strings.Index/IndexByte/Count and sync.Pool are symbolic-aware intrinsics",
+    "oracle: priority keys (style rank, first-registration order, fewest captures, final match-all last) and admission terms written from the property statement; regex membership is a second, independent rune-level DP over regexp/syntax trees",
+    "a bare {name} inside a regex-style segment admits what Go's `.+` admits (no newline)",
+    "C02 relation for several binds in one segment is asserted on %-free segments; decoding is asserted on placeholder and match-all values",
+]
+
+for _pid in ("C01", "C02", "C07"):
+    SPECS[_pid] = Spec(
+        _pid, ROUTE_FILES, (lambda p: (lambda tier, seed: routing_jobs(p, tier, seed)))(_pid),
+        assumptions=ROUTING_ASSUME, bounds=routing_bounds,
+        rule="one job per route set; within a job every request path up to the bound is covered by the solver: each explored "
+             "path of the real Tree.Match is one equivalence class of request paths; a class is non-trivial when the "
+             "request reaches at least one tree node comparison",
+    )
